@@ -474,12 +474,18 @@ _c10_thorough = [run("vy", "map_" + t, c=0, opt={"T": 1, "m": 4, "keys": 5, "cap
     [run("vy", "map_tt_i1_hp", c=1, mode="wmm", d=1, opt={"m": 1, "keys": 5, "prefill": 31, "cap": 128, "ops": 0x7}, weight=3)] + \
     [run("vy", "map_" + t, c=2, heap="reuse", opt={"m": 1, "keys": 5, "prefill": 31, "cap": 128, "ops": 0x27}, weight=3) for t in ["tt_i1_hp", "tt_i1_he", "tn_i1_hp", "tm_i1_hp"]] + \
     [run("vy", "map_" + t, c=1, heap="reuse", opt={"keys": 2, "cap": 1, "ops": 0x27}, weight=1) for t in ["tt_i1_hp", "tt_i1_he", "tt_i1_ebr", "st_s1_hp", "tm_i1_hp"]]
+# sequential sweeps: capacities 1 / 8 / 128, up to 24 (48) keys spread over the buckets or sharing 1 / 4 buckets, removal by erase / extract / iterator, refill
+_vy_sweeps = ["tt_id_hp", "tt_i1_hp", "tt_i4_ebr", "tn_i4_hp", "tn_id_ebr", "st_sid_hp", "st_s1_hp", "sn_sid_ebr", "tm_i4_hp", "tm_id_ebr", "sm_sid_hp"]
+_c10_quick += [run("vy", "sweep_" + t, c=0, weight=0.15) for t in _vy_sweeps]
+_c10_thorough += [run("vy", "sweep_" + t, c=0, opt={"maxn": 24 if t == "st_s1_hp" else 48, "ncaps": 5}, weight=0.5) for t in _vy_sweeps]
 PLAN["C10"] = {
     "quick": _c10_quick, "thorough": _c10_thorough, "budget_s": {"quick": 170, "thorough": 1300},
     "rule": "programs: T threads x m operations over subsets of {emplace, erase, try_get_value, find, get_or_emplace, extract} on 2-6 keys that share one bucket "
             "(keys congruent mod 128 / constant hash) or two buckets; initial capacity 1 (every fourth key in a bucket forces grow) and 128 (extension items), "
             "five key/value storage specialisations (trivial/non-trivial key x trivial / non-trivial / managed_ptr value); sequential runs: all sequences of depth 3-4 "
-            "over the full alphabet after a prefill that populates the extension list; final full iteration as snapshot; oracle: Wing-Gong linearizability against a "
+            "over the full alphabet after a prefill that populates the extension list; get_or_emplace on odd keys goes through get_or_emplace_lazy (factory called iff inserted); "
+            "sequential sweeps (capacity 1 / 8 / 128, 1..24 keys - 48 thorough - spread over the buckets or sharing one / four buckets, five removal patterns by erase / extract / "
+            "traversal+erase(iterator) / find+erase(iterator), refill; try_get_value, find and a full traversal compared with a reference after every phase); final full iteration as snapshot; oracle: Wing-Gong linearizability against a "
             "sequential map incl. value identity (a lock-free read may never return another key's value), heap shadow and race detector, progress monitor on try_get_value",
     "assumptions": ["values are small integers (wrapped in non-trivial / managed objects as the mode requires)"],
 }
@@ -496,7 +502,9 @@ PLAN["C11"] = {
               run("vy", "it_st_s1_hp", c=1, opt={"steps": 2, "keys": 5, "prefill": 31, "readers": 1, "m": 1}, weight=2),
               run("vy", "it_tt_i2_hp", c=1, opt={"steps": 2, "keys": 4, "prefill": 15, "updaters": 1, "m": 1}, weight=2),
               run("vy", "it_tm_i1_hp", c=1, opt={"steps": 2, "keys": 4, "prefill": 15, "readers": 1, "m": 1}, weight=2)] +
-             [run("vy", t, c=2, weight=2) for t in ["itf_tt_i1_hp", "itf_st_s1_hp"]] + [run("vy", t, c=1, weight=0.5) for t in ["itf_tm_i1_hp", "itf_tn_i1_hp", "itf_tt_i2_hp"]],
+             [run("vy", t, c=2, weight=2) for t in ["itf_tt_i1_hp", "itf_st_s1_hp"]] + [run("vy", t, c=1, weight=0.5) for t in ["itf_tm_i1_hp", "itf_tn_i1_hp", "itf_tt_i2_hp"]] +
+             # sequential sweeps: erasing traversals / find+erase(iterator) over maps with long extension chains and after several grows, map emptied through an iterator
+             [run("vy", "sweep_" + t, c=0, weight=0.15) for t in _vy_sweeps],
     "thorough": [run("vy", t, c=0, opt={"steps": 5, "keys": 5, "prefill": 31}, weight=2) for t in _c11_seq] +
                 [run("vy", "itf_" + t, c=3, weight=3) for t in ["tt_i1_hp", "st_s1_hp", "tm_i1_hp", "tn_i1_hp", "sm_s1_hp", "tt_i1_ebr", "tt_i2_hp"]] +
                 [run("vy", "it_tt_i2_hp", c=0, opt={"steps": 4, "keys": 8, "prefill": 255}, weight=2)] +
